@@ -71,17 +71,63 @@ def base_env():
     env.add_class('QCObj', pyclass=B.QueueCollection, fields={'_queues': 'QueuesMap'})
     env.model('QueuesMap', 'values', trusted='queues of the collection')(lambda I, self: I.ghost['entries'])
     env.model('QEntry', 'get', trusted='dict.get')(lambda I, self, key, default=None: I.get_item(self, key))
-    env.loop('bert_e.workflow.gitwaterflow.integration:merge_integration_branches', 0, None)
-    env.loop('bert_e.workflow.gitwaterflow.integration:merge_integration_branches', 1, None, havoc=[havoc_local])
-    env.loop('bert_e.workflow.gitwaterflow.branches:QueueCollection.delete', 0, None)
-    env.loop('bert_e.workflow.gitwaterflow.queueing:handle_merge_queues', 0, None)
+    env.allow_inline(Q.get_queue_branch, Q.get_queue_integration_branch)
+    env.model('QC', 'validate', trusted='QueueCollection.validate: raises IncoherentQueues / QueueOutOfOrder or returns')(
+        qc_validate)
+    env.attr_models[('QC', 'mergeable_prs')] = ModelMethod(lambda I, self: I.ghost['mergeable_prs'], 'mergeable_prs')
+    env.attr_models[('QC', 'failed_prs')] = ModelMethod(lambda I, self: I.ghost['failed_prs'], 'failed_prs')
+    env.attr_models[('QC', 'mergeable_queues')] = ModelMethod(lambda I, self: I.alloc_obj(None, 'QueuesMap', {}),
+                                                              'mergeable_queues')
+    env.model('BertEObj', 'update_queue_status', trusted='status page bookkeeping (in memory)')(lambda I, self, q: None)
+    env.model('BertEObj', 'add_merged_pr', trusted='status page bookkeeping (in memory)')(lambda I, self, p: None)
+    import copy
+    env.fn_models[copy.deepcopy] = lambda I, x: x
+    env.trusted.append('copy.deepcopy(cascade): a copy (no repository effect)')
+    # the trace does not survive a loop cut: the number of publications and of remote git operations are
+    # summary ghosts, kept at zero by every loop that precedes the final push (a clause of the property)
+    for fn, ordn in (('bert_e.workflow.gitwaterflow.integration:merge_integration_branches', 0),
+                     ('bert_e.workflow.gitwaterflow.integration:merge_integration_branches', 1),
+                     ('bert_e.workflow.gitwaterflow.queueing:handle_merge_queues', 0),
+                     ('bert_e.workflow.gitwaterflow.queueing:add_to_queue', 0),
+                     ('bert_e.workflow.gitwaterflow.queueing:merge_queues', 0),
+                     ('bert_e.workflow.gitwaterflow.queueing:merge_queues', 1)):
+        env.loop(fn, ordn, inv_nothing_published, havoc=[havoc_local, havoc_counters], top_level=True)
+    env.on_event = on_event
     return env
+
+
+def inv_nothing_published(G):
+    return G.writers == 0 and (G.remote_git_ops == 0 or G.remote_allowed)
+
+
+def havoc_counters(I, fr):
+    I.ghost['writers'] = I.fresh('writers@loop', 'int', is_input=False)
+    I.ghost['remote_git_ops'] = I.fresh('remote_git_ops@loop', 'int', is_input=False)
+
+
+def on_event(I, ev):
+    handlers.on_event(I, ev)
+    if I.ghost.get('callee_level'):
+        return
+    kind = ev[0]
+    if kind in GIT_MUTATIONS:
+        w = I.ghost['writers']
+        tagged(I, 'C02', 'no remote git operation after the destination branches have been published', 'site',
+               smt.Eq(I.term_of(w), smt.IntC(0)), kind)
+        I.ghost['remote_git_ops'] = SInt(smt.Add(I.term_of(I.ghost['remote_git_ops']), smt.IntC(1)))
+        if kind in ('push_all', 'push_refspec'):
+            I.ghost['writers'] = SInt(smt.Add(I.term_of(w), smt.IntC(1)))
+
+
+def qc_validate(I, self):
+    if I.choose(None, 'queues incoherent'):
+        raise TargetExc(I.make_exception(X.IncoherentQueues, [[]], {}))
 
 
 # ---------------------------------------------------------------- git_utils.push
 def push_setup_for(kind):
     def setup(I, args):
-        setup_common(I, args)
+        c02_setup(I, args)
         I.ghost['callee_level'] = True
         args['repo'] = I.ghost['repo']
         if kind == 'none':
@@ -121,8 +167,15 @@ def one_atomic_publication_last(G):
     return len(writers) <= 1 and (len(writers) == 0 or ops[-1] is writers[0] or ops[-1] == writers[0])
 
 
-def mib_setup(I, args):
+def c02_setup(I, args, remote_allowed=True):
     setup_common(I, args)
+    I.ghost['writers'] = SInt(smt.IntC(0))
+    I.ghost['remote_git_ops'] = SInt(smt.IntC(0))
+    I.ghost['remote_allowed'] = remote_allowed
+
+
+def mib_setup(I, args):
+    c02_setup(I, args)
     I.env.fn_models[GU.robust_merge] = I.env.merge_model
     I.env.fn_models[GU.consecutive_merge] = I.env.merge_model
     wb = I.seq_value(args['wbranches'])
@@ -147,13 +200,13 @@ def handlers_push(I, repo, branches=None, prune=False):
 
 def ens_mib(job, wbranches, out, G):
     ops = git_ops(G)
-    return (one_atomic_publication_last(G)
-            and implies(out.returned, len(ops) == 1 and ops[0] == ('push_all', True)))
+    return (one_atomic_publication_last(G) and G.writers <= 1
+            and (not out.returned or (G.writers == 1 and len(ops) == 1 and ops[0] == ('push_all', True))))
 
 
 def atq_setup_for(k):
     def setup(I, args):
-        setup_common(I, args)
+        c02_setup(I, args)
         I.env.fn_models[GU.robust_merge] = I.env.merge_model
         I.env.fn_models[GU.consecutive_merge] = I.env.merge_model
         I.env.fn_models[GU.push] = handlers_push
@@ -171,20 +224,37 @@ def atq_setup_for(k):
 
 def ens_atq(job, wbranches, out, G):
     # entering the queue only writes q/ branches (event obligations) and never a destination branch
-    return not any(e[0] in ('push_all', 'push_refspec', 'tag_push') for e in G.trace)
+    return G.writers == 0 and not any(e[0] in ('push_all', 'push_refspec', 'tag_push') for e in G.trace)
+
+
+def mq_setup(I, args):
+    c02_setup(I, args, remote_allowed=False)
+    entries = I.fresh('queue_entries', 'fseq[QEntry]')
+    I.ghost['entries'] = entries
+    args['queues'] = I.alloc_obj(None, 'QueuesMap', {})
+    e, j = smt.fresh_bound('e', smt.INT), smt.fresh_bound('j', smt.INT)
+    qints = smt.App('QEntry.qints', [smt.SeqNth(entries.t, e)], smt.SeqS(smt.STR))
+    I.assume(smt.ForAll([e, j], smt.Implies(
+        smt.And(smt.Le(smt.IntC(0), e), smt.Lt(e, smt.SeqLen(entries.t)), smt.Le(smt.IntC(0), j),
+                smt.Lt(j, smt.SeqLen(qints))),
+        smt.StrPrefixOf(smt.StrC('q/w/'), smt.SeqNth(qints, j)))))
+
+
+def ens_mq(queues, out, G):
+    # the destination branches are fast-forwarded in the local clone only
+    return G.remote_git_ops == 0 and len(git_ops(G)) == 0
 
 
 def hmq_setup(I, args):
-    setup_common(I, args)
+    c02_setup(I, args)
     I.env.fn_models[GU.push] = handlers_push
     job = args['job']
     I.set_attr(I.get_attr(job, 'git'), 'cascade', None)
     I.ghost['entries'] = I.fresh('queue_entries', 'fseq[QEntry]')
 
-    def qc_build(I2, j):
-        q = I2.alloc_obj(None, 'QC', {})
-        return q
-    I.env.fn_models[B.build_queue_collection] = qc_build
+    I.ghost['mergeable_prs'] = I.alloc_list(I.fresh('mergeable_prs', 'fseq[int]'))
+    I.ghost['failed_prs'] = I.alloc_list(I.fresh('failed_prs', 'fseq[int]'))
+    # merge_queues through its contract (verified above): local merges and deletions, no remote operation
     I.env.fn_models[Q.merge_queues] = lambda I2, queues: emit(I2, 'merge_queues')
     I.env.fn_models[Q.close_queued_pull_request] = lambda I2, j, pr_id, casc: emit(I2, 'comment', pr_id)
     I.env.fn_models[Q.notify_queue_build_failed] = lambda I2, prs, j: emit(I2, 'comment', 'queue build failed')
@@ -192,9 +262,10 @@ def hmq_setup(I, args):
 
 def ens_hmq(job, out, G):
     ops = git_ops(G)
-    return (one_atomic_publication_last(G)
-            and implies(out.raised(X.Merged), len(ops) == 1 and ops[0] == ('push_all', True))
-            and implies(out.raised(X.NothingToDo, X.QueueBuildFailed, X.IncoherentQueues), len(ops) == 0))
+    return (one_atomic_publication_last(G) and G.writers <= 1
+            and (not out.raised(X.Merged) or (G.writers == 1 and len(ops) == 1 and ops[0] == ('push_all', True)))
+            and (not out.raised(X.NothingToDo, X.QueueBuildFailed, X.IncoherentQueues)
+                 or (G.writers == 0 and len(ops) == 0)))
 
 
 def contracts(env):
@@ -216,6 +287,8 @@ def contracts(env):
                            args={'job': 'HJob', 'wbranches': 'opaque'}, setup=atq_setup_for(k),
                            label='bert_e.workflow.gitwaterflow.queueing:add_to_queue[%d targets]' % k,
                            ensures=[('writes_only_queue_branches', ens_atq)], covers=['return']))
+    cs.append(Contract('bert_e.workflow.gitwaterflow.queueing:merge_queues', args={'queues': 'opaque'},
+                       setup=mq_setup, ensures=[('no_remote_git_operation', ens_mq)], covers=['return']))
     cs.append(Contract('bert_e.workflow.gitwaterflow.queueing:handle_merge_queues', args={'job': 'HJob'},
                        setup=hmq_setup,
                        ensures=[('destinations_published_by_one_atomic_push_last', ens_hmq)],
